@@ -6,6 +6,7 @@ import (
 	"go/token"
 	"os"
 	"path/filepath"
+	"regexp"
 	"sort"
 	"strings"
 	"time"
@@ -55,18 +56,23 @@ type Exception struct {
 
 // C is the per-run checker context.
 type C struct {
-	P        *Program
-	Prop     string
-	Tier     string
-	Obs      []*Obligation
-	Counts   map[string]int // named instance counts
-	Mins     map[string]int // reviewed minimums for the counts
-	Notes    []string
-	Facts    *Facts
-	known    []Finding
-	excepted []*Exception
-	seen     map[string]bool
-	la       *lockAnalysis
+	P         *Program
+	Prop      string
+	Tier      string
+	Obs       []*Obligation
+	Counts    map[string]int // named instance counts
+	Mins      map[string]int // reviewed minimums for the counts
+	Notes     []string
+	Facts     *Facts
+	known     []Finding
+	excepted  []*Exception
+	seen      map[string]bool
+	la        *lockAnalysis
+	preMemo   map[*ssa.Function][]dfact
+	preBusy   map[*ssa.Function]bool
+	bce       map[string]bool
+	bceErr    error
+	aliasMemo map[string]string
 }
 
 func (c *C) Count(name string, n int) { c.Counts[name] += n }
@@ -84,7 +90,7 @@ func (c *C) Add(rule string, fn string, construct string, pos token.Pos, ok bool
 	} else {
 		o.Status = Violated
 		for _, e := range c.excepted {
-			if e.Rule == rule && e.Func == fn && (e.Construct == construct || e.Construct == "*") {
+			if e.Rule == rule && e.Func == fn && (e.Construct == construct || e.Construct == "*" || e.Construct == normRegs(construct)) {
 				o.Status = Excepted
 				o.Detail = strings.TrimSpace(detail + " [exception: " + e.Reason + "]")
 				e.used = true
@@ -298,3 +304,8 @@ func (c *C) finishQuiet(verifDir string, start time.Time, seed int, spec *PropSp
 	rb, _ := json.MarshalIndent(map[string]any{"property": c.Prop, "violations": c.Obs}, "", " ")
 	os.WriteFile(filepath.Join(verifDir, "evidence", "replay", c.Prop+".json"), rb, 0o644)
 }
+
+var regRe = regexp.MustCompile(`\bt\d+\b`)
+
+// normRegs replaces SSA register names by t_ so that exception keys survive unrelated edits of the function.
+func normRegs(s string) string { return regRe.ReplaceAllString(s, "t_") }
